@@ -108,8 +108,6 @@ def modelled(ty):
     for n in S.ty_nodes(ty):
         if not isinstance(n, str) and n[0] == "tunp":
             return False
-        if not isinstance(n, str) and n[0] == "leaf" and n[1] == "pattern":
-            return False
     return True
 
 
@@ -128,7 +126,7 @@ def full_document(schema_obj, dialect, all_refs):
     return d
 
 
-def run_cases(ctx, cases):
+def run_cases(ctx, cases, annot=False):
     import jsonschema
     from mashumaro.codecs.basic import BasicEncoder
     from mashumaro.jsonschema import build_json_schema
@@ -137,6 +135,7 @@ def run_cases(ctx, cases):
     for ty0, value in cases:
         ty = force_default_options(ty0)
         reg = S.Reg(mixin=True)
+        reg.annot = annot
         keep = False
         try:
             try:
@@ -148,6 +147,9 @@ def run_cases(ctx, cases):
                 ctx.bump("build_error")
                 continue
             case = {"ty": ty, "value": value}
+            if annot:
+                case["annot"] = annot
+                ctx.bump(f"wrapper cases:{annot}")
             ctx.count(case, not isinstance(ty, str), kind=f"root:{gen.tag_of(ty)}")
             try:
                 doc = BasicEncoder(ann).encode(obj)
@@ -228,8 +230,6 @@ def leaf_wire_law(ctx):
     n = 0
     g = gen.G(ctx.rng, max_depth=1)
     for kind, typ in S.LEAF_TYPES.items():
-        if kind == "pattern":
-            continue
         sch = build_json_schema(typ).to_dict()
         enc = BasicEncoder(typ)
         for _ in range(40):
@@ -309,6 +309,10 @@ def run(ctx):
         k = min(500, n - done)
         run_cases(ctx, gen_cases(ctx, k, depth))
         done += k
+    # the same generator with every annotation wrapped in Annotated / NewType / TypeAliasType
+    for mode in (True, "newtype", "typealias"):
+        if ctx.time_left() > 40:
+            run_cases(ctx, gen_cases(ctx, 250 if ctx.tier == "quick" else 3000, depth), annot=mode)
     ctx.assumptions += [
         "validity in the theorem is the Draft 2020-12 meaning of the emitted keywords as written in Mashu.Schema.Valid (format is an annotation; uniqueItems is not modelled); "
         "on the implementation the real `jsonschema` package decides",
@@ -320,7 +324,7 @@ def replay(ctx, body):
     ctx.lean_check("Mashu.Props.C06", THEOREMS, extra_targets=["Mashu.Dispatch"])
     c = body["case"]
     if c and "ty" in c:
-        run_cases(ctx, [(c["ty"], c["value"])])
+        run_cases(ctx, [(c["ty"], c["value"])], annot=c.get("annot", False))
     elif c and "leaf" in c:
         leaf_wire_law(ctx)
     elif c and "template" in c:
